@@ -38,11 +38,11 @@ theorem description_is_run_above (h : Line) (post : List Line) (hh : isComment h
 
 /-- the name of a change is only stored: two headers that differ in the name give changes that
 differ in the name only (sectioning and every later stage receive the same lines) -/
-theorem name_only_stored (eof fuel : Nat) (h1 h2 : Line) (c1 c2 : List Bytes) (rest : List (Line × List Bytes))
+theorem name_only_stored (u : Uni) (eof fuel : Nat) (h1 h2 : Line) (c1 c2 : List Bytes) (rest : List (Line × List Bytes))
     (hoff : h1.off = h2.off) (hc : c1 = c2)
-    (hn1 : (readName h1).2 = none) (hn2 : (readName h2).2 = none) :
-    ((readProgram eof (fuel + 1) ((h1, c1) :: rest)).1.map (fun c => (c.headerOff, c.metaL, c.atOff, c.patch, c.comments))) =
-    ((readProgram eof (fuel + 1) ((h2, c2) :: rest)).1.map (fun c => (c.headerOff, c.metaL, c.atOff, c.patch, c.comments))) := by
+    (hn1 : (readName u h1).2 = none) (hn2 : (readName u h2).2 = none) :
+    ((readProgram u eof (fuel + 1) ((h1, c1) :: rest)).1.map (fun c => (c.headerOff, c.metaL, c.atOff, c.patch, c.comments))) =
+    ((readProgram u eof (fuel + 1) ((h2, c2) :: rest)).1.map (fun c => (c.headerOff, c.metaL, c.atOff, c.patch, c.comments))) := by
   subst hc
   simp only [readProgram]
   cases hm : readMeta rest [] with
